@@ -1236,7 +1236,15 @@ fn oracle_c16(fields: &[&str]) -> String {
         steps
             .iter()
             .map(|s| {
-                let (m, mut rest): (Vec<&str>, Vec<&str>) = s.split(' ').partition(|w| ["inv", "omit_fwd", "omit_inv"].contains(w));
+                // (a flag spelled out, `inv=true` in any case, is the flag)
+                let spelled: Vec<String> = s
+                    .split(' ')
+                    .map(|w| match w.split_once('=') {
+                        Some((k, v)) if ["inv", "omit_fwd", "omit_inv"].contains(&k) && v.to_lowercase() == "true" => k.to_string(),
+                        _ => w.to_string(),
+                    })
+                    .collect();
+                let (m, mut rest): (Vec<&str>, Vec<&str>) = spelled.iter().map(|w| w.as_str()).partition(|w| ["inv", "omit_fwd", "omit_inv"].contains(w));
                 let mut m = m;
                 m.sort();
                 rest.extend(m);
